@@ -36,6 +36,9 @@ import Proofs.SchedOnce
 import Martian.SchedProgress
 import Proofs.SchedProgress
 
+/-! ### definitional unfoldings (documentation of the model, not guarantees)
+The theorems whose docstring starts with DEFINITIONAL UNFOLDING (finished_fork_never_launches, no_double_submission, launched_object_exists) restate a guard
+or a definition of the model; they stay where later theorems use them and are not cited as guarantees. -/
 namespace Props.C03
 open Martian.Sched
 
@@ -44,7 +47,7 @@ same (object, incarnation) twice — no job is submitted twice by one mrp proces
 theorem at_most_once {g : List NodeInfo} {s : State} (hr : Reach g s) : s.launches.Nodup :=
   (reach_launchInv hr).nodup
 
-/-- the same as a guard: a job already submitted in this incarnation cannot be submitted again -/
+/-- DEFINITIONAL UNFOLDING (documentation of the model / of a guard, not a guarantee). the same as a guard: a job already submitted in this incarnation cannot be submitted again -/
 theorem no_double_submission {s : State} {o : Obj} (h : (o, s.inc) ∈ s.launches) :
     enabled s (.launch o) = false := by
   cases he : enabled s (.launch o)
@@ -66,7 +69,7 @@ theorem submitted_stays_submitted {g : List NodeInfo} {s : State} (hr : Reach g 
     (s.m o).disk.has .jobinfo = true ∨ ∃ k, i < k ∧ k ≤ s.inc ∧ (o, k) ∈ s.resets :=
   (reach_launchInv hr).alive o i hi
 
-/-- `disabled calls never run` / finished forks are left alone: no job of a fork
+/-- DEFINITIONAL UNFOLDING (documentation of the model / of a guard, not a guarantee). `disabled calls never run` / finished forks are left alone: no job of a fork
 whose own metadata says disabled or complete can be submitted … -/
 theorem finished_fork_never_launches {s : State} {n f : Nat} {r : Role}
     (h : fmDone s n f = true) : enabled s (.launch ⟨n, f, r⟩) = false := by
@@ -82,7 +85,7 @@ theorem finished_fork_stays_finished {g : List NodeInfo} {s : State} {e : Ev} {n
     fmDone (apply s e) n f = true :=
   fmDone_stable (reach_objsInv hr) (reach_full hr) hen h
 
-/-- only objects that exist are run: the fork is in the node's fork list and a
+/-- DEFINITIONAL UNFOLDING (documentation of the model / of a guard, not a guarantee). only objects that exist are run: the fork is in the node's fork list and a
 chunk index is below the number of chunks the split defined -/
 theorem launched_object_exists {s : State} {o : Obj} (hen : enabled s (.launch o) = true) :
     s.hasObj o = true ∧ o.r ≠ .fork := by
